@@ -49,7 +49,7 @@ def one_letter_host(run, sb):
 
 # ------------------------------------------------------------------ consent / listing errors as an unprivileged user
 
-@trial('C03', 'C17', 'C07')
+@trial('C03', 'C17', 'C07', 'C01')
 def unlistable_dest_subfolder(run, sb):
     """destination sub-folder that may be written and searched but not listed (mode 0300, doer as uid 65534) holding a file that is newer
     than the source's: whatever happens, that file is not overwritten under --dest-file-newer error / skip, and a run that could not list
@@ -237,8 +237,8 @@ def run_trials(run, prop_id):
     sb = l4.Sandbox()
     try:
         for f in todo:
-            if run.violations:
-                break
+            if any(not no_input for _, no_input in run.violations):
+                break           # (a violation with a failing input is already on record; one without is a reason to go on looking)
             f(run, sb)
     finally:
         subprocess.run(['chmod', '-R', 'u+rwx', sb.dir], capture_output=True)
@@ -443,3 +443,222 @@ def run_spec_stream(run, n=None):
             shutil.rmtree(base, ignore_errors=True)
     finally:
         sb.close()
+
+
+# ------------------------------------------------------------------ round 8
+
+@trial('C01', 'C03', 'C17', 'C07')
+def unlistable_source_subfolder(run, sb):
+    """a source sub-folder the doer's user may not list (mode 0300 / 000, doer as uid 65534): the run does not end 0 with that folder
+    created empty on the destination"""
+    if not l4.nobody_can_run():
+        run.count('skipped:uid-65534-cannot-run-the-binary'); return
+    for mode in (0o300, 0o000):
+        base = os.path.join(sb.dir, 'uls-%o' % mode)
+        src, dst = os.path.join(base, 'src'), os.path.join(base, 'dst')
+        l3.make_tree(src, [('', 'D'), ('private', 'D'), ('private/s.txt', 'F', b'secret', 10**18), ('private/inner', 'D'), ('top', 'F', b't', 10**18)])
+        os.makedirs(dst)
+        subprocess.run(['chown', '-R', '65534:65534', base]); subprocess.run(['chmod', '-R', 'a+rX', base]); os.chmod(sb.dir, 0o755)
+        os.chmod(os.path.join(src, 'private'), mode)
+        r = l4.run_cli([src + '/', dst + '/'], env=sb.env(), timeout=60, preexec=as_nobody)
+        os.chmod(os.path.join(src, 'private'), 0o755)
+        d = l3.snapshot(dst)
+        run.case(('trial', 'unlistable-source-subfolder', mode), True, sample=dict(layer='L4', trial='unlistable-source-subfolder', mode=oct(mode), rc=r['rc']))
+        run.count('trial:unlistable-source-subfolder')
+        if r['rc'] == 0 and b'private/s.txt' not in d:
+            viol(run, 'exit 0 means the destination is the mirror of the source: a folder that cannot be listed is an error, not an empty folder', mode=oct(mode), rc=0,
+                 destination=sorted(p.decode() for p in d), stdout=r['out'][-300:]); return
+        shutil.rmtree(base, ignore_errors=True)
+
+
+@trial('C04', 'C18', 'C05')
+def repeat_under_output_options(run, sb):
+    """the identical command twice, under every output option (--stats, --verbose, --quiet, --no-progress ...): the second run ends 0,
+    says there is nothing to do and changes nothing"""
+    for opts in (['--stats'], ['--stats', '--no-progress'], ['--verbose'], ['--quiet'], ['--stats', '--verbose'], ['--stats', '--dry-run']):
+        base = os.path.join(sb.dir, 'rep' + ''.join(o.strip('-')[:2] for o in opts))
+        src, dst = os.path.join(base, 'src'), os.path.join(base, 'dst')
+        l3.make_tree(src, [('', 'D'), ('a', 'F', b'aaa', 10**18), ('d', 'D'), ('d/b', 'F', b'b' * 5000, 10**18 + 5), ('l', 'L', 'a')])
+        r1 = l4.run_cli([src + '/', dst + '/'] + [o for o in opts if o != '--dry-run'], env=sb.env(), timeout=60)
+        before = l3.snapshot(dst)
+        r2 = l4.run_cli([src + '/', dst + '/'] + opts, env=sb.env(), timeout=60)
+        after = l3.snapshot(dst)
+        run.case(('trial', 'repeat-under-output-options', tuple(opts)), True, sample=dict(layer='L4', trial='repeat-under-output-options', options=opts, first_rc=r1['rc'], second_rc=r2['rc']))
+        run.count('trial:repeat-under-output-options')
+        said = 'Nothing to do' in (r2['out'] + r2['err'])
+        if r1['rc'] != 0 or r2['rc'] != 0 or before != after or (not said and '--quiet' not in opts):
+            viol(run, 'repeating a successful sync straight away reports that there is nothing to do, exits 0 and leaves every destination byte and timestamp unchanged (whatever output options the command carries)',
+                 options=opts, first_rc=r1['rc'], second_rc=r2['rc'], destination_changed=before != after, said_nothing_to_do=said, stderr=r2['err'][-500:]); return
+        shutil.rmtree(base, ignore_errors=True)
+
+
+@trial('C06', 'C07', 'C03')
+def include_only_filters_stale_folder(run, sb):
+    """a filter list made of includes only (everything else is excluded by default); a destination folder that is itself included and must go
+    holds entries the filters hide: they are not touched (the folder's deletion fails), whatever shortcut deletes folders"""
+    for fl in (['+archive', '+archive/.*\\.txt', '+keep(/.*)?'], ['+archive(/[^/]*)?', '+keep(/.*)?']):
+        base = os.path.join(sb.dir, 'iof%d' % len(fl[0]))
+        src, dst = os.path.join(base, 'src'), os.path.join(base, 'dst')
+        l3.make_tree(src, [('', 'D'), ('keep', 'D'), ('keep/k.txt', 'F', b'k', 10**18)])
+        l3.make_tree(dst, [('', 'D'), ('archive', 'D'), ('archive/old.txt', 'F', b'old', 10**18), ('archive/NOTES.md', 'F', b'notes', 10**18),
+                           ('archive/raw', 'D'), ('archive/raw/dump.bin', 'F', b'dump', 10**18), ('archive/raw/deep', 'D'), ('archive/raw/deep/x.txt', 'F', b'x', 10**18)])
+        import re
+        def keeps(p):
+            state = False
+            for f in fl:
+                if re.fullmatch(f[1:], p): state = f[0] == '+'
+            return state
+        def visible(p):
+            parts = p.split('/')
+            return all(keeps('/'.join(parts[:k + 1])) for k in range(len(parts)))
+        before = l3.snapshot(dst)
+        args = [src + '/', dst + '/'] + [x for f in fl for x in ('--filter', f)]
+        r = l4.run_cli(args, env=sb.env(), timeout=60)
+        after = l3.snapshot(dst)
+        hidden = [p for p in before if p and not visible(p.decode())]
+        touched = [p.decode() for p in hidden if after.get(p) != before.get(p)]
+        run.case(('trial', 'include-only-filters-stale-folder', tuple(fl)), True, sample=dict(layer='L4', trial='include-only-filters-stale-folder', filters=fl, rc=r['rc'], hidden_entries=len(hidden)))
+        run.count('trial:include-only-filters-stale-folder')
+        if touched or not hidden:
+            viol(run, 'entries that do not take part in the sync (here: not matched by any include filter, hence excluded) are never read, created, modified or deleted',
+                 filters=fl, rc=r['rc'], hidden_entries_touched=touched, stderr=r['err'][-300:]); return
+        if r['rc'] == 0:
+            viol(run, 'exit status 0 only if every planned deletion was carried out (the folder that must go still holds hidden entries: its deletion fails)', filters=fl, rc=0); return
+        shutil.rmtree(base, ignore_errors=True)
+
+
+@trial('C07', 'C09', 'C11', 'C08')
+def pseudo_files(run, sb):
+    """source files whose reported length is not what reading delivers (procfs: length 0 but content; sysfs attribute: length 4096 but a few
+    bytes; sysfs binary: every read() is short): the run ends within bounded time, and ends 0 only with the bytes that a plain read gives;
+    a failed run leaves no file that carries the source's time with other bytes"""
+    for path in ('/proc/version', '/sys/class/net/lo/mtu', '/sys/kernel/btf/vmlinux', '/proc/self/status'):
+        if not os.path.exists(path):
+            run.count('trial:pseudo-files:absent'); continue
+        base = os.path.join(sb.dir, 'pf' + path.replace('/', '_')); os.makedirs(base)
+        out = os.path.join(base, 'out')
+        try:
+            content = open(path, 'rb').read()
+            smt = os.stat(path).st_mtime_ns
+        except OSError:
+            continue
+        r = l4.run_cli([path, out, '--no-progress'], env=sb.env(), timeout=45)
+        got = open(out, 'rb').read() if os.path.isfile(out) else None
+        run.case(('trial', 'pseudo-files', path), True, sample=dict(layer='L4', trial='pseudo-files', file=path, stat_size=os.stat(path).st_size, read_size=len(content), rc=r['rc'], timed_out=r['timeout']))
+        run.count('trial:pseudo-files')
+        stable = path != '/proc/self/status'
+        if r['timeout']:
+            viol(run, 'every run hands control back within bounded time, also when a source file is shorter (or longer) than its reported length', file=path, stat_size=os.stat(path).st_size, read_size=len(content), timed_out=True); return
+        if r['rc'] == 0 and stable and got != content:
+            viol(run, 'exit 0 means the file was copied exactly; if the length at copy time differs from the length seen when the trees were compared the run fails',
+                 file=path, stat_size=os.stat(path).st_size, read_size=len(content), copied_bytes=None if got is None else len(got), rc=0, stdout=r['out'][-200:]); return
+        if r['rc'] != 0 and stable and got is not None and got != content and os.stat(out).st_mtime_ns == smt:
+            viol(run, 'a failed run leaves no destination file that carries the source\'s modification time but different bytes', file=path, read_size=len(content), left_bytes=len(got), rc=r['rc']); return
+        shutil.rmtree(base, ignore_errors=True)
+
+
+@trial('C11', 'C08', 'C07')
+def efbig_in_the_tail(run, sb):
+    """the destination refuses bytes (EFBIG, SIGXFSZ ignored) inside the last part / the last few KiB of a file of several parts - where a
+    buffered writer would still be holding them: exit 0 only with the whole file; no file with the source's time and other bytes"""
+    for n, lim, prev in ((5000, 4096, 0), (5000, 4096, 20000), (12388, 10240, 0), (200000, 184320, 0), (200000, 199999, 300000), (70000, 69000, 0)):
+        base = os.path.join(sb.dir, f'eft{n}-{lim}-{prev}')
+        src, dst = os.path.join(base, 'src'), os.path.join(base, 'dst')
+        data = l3.content(n, n)
+        l3.make_tree(src, [('', 'D'), ('f', 'F', data, 10**18 + 7)])
+        l3.make_tree(dst, [('', 'D')] + ([('f', 'F', l3.content(prev + 1, prev), 5 * 10**17)] if prev else []))
+        def limit(lim=lim):
+            signal.signal(signal.SIGXFSZ, signal.SIG_IGN)
+            resource.setrlimit(resource.RLIMIT_FSIZE, (lim, lim))
+        r = l4.run_cli([src + '/', dst + '/', '--no-progress'], env=sb.env(), timeout=60, preexec=limit)
+        p = os.path.join(dst, 'f')
+        got = open(p, 'rb').read() if os.path.exists(p) else None
+        run.case(('trial', 'efbig-in-the-tail', n, lim, prev), True, sample=dict(layer='L4', trial='efbig-in-the-tail', length=n, rlimit_fsize=lim, previous_length=prev, rc=r['rc']) if prev == 0 and n == 5000 else None)
+        run.count('trial:efbig-in-the-tail')
+        if r['rc'] == 0 and got != data:
+            viol(run, 'exit 0 only if the file was written completely (a write the destination refuses is an error, wherever in the file it falls)', length=n, rlimit_fsize=lim, previous_length=prev, rc=0,
+                 destination_bytes=None if got is None else len(got)); return
+        if got is not None and got != data and os.stat(p).st_mtime_ns == 10**18 + 7:
+            viol(run, 'the destination never holds a file that carries the source\'s modification time but different bytes', length=n, rlimit_fsize=lim, previous_length=prev, rc=r['rc'], destination_bytes=len(got)); return
+        shutil.rmtree(base, ignore_errors=True)
+
+
+@trial('C12', 'C02')
+def refused_unlink_of_link(run, sb):
+    """as uid 65534: a destination symlink that must go but whose unlink is refused (sticky folder, link owned by someone else; or a folder
+    that may not be written) points at a read-only file of the doer's user outside the tree: that file's mode, bytes and time stay"""
+    if not l4.nobody_can_run():
+        run.count('skipped:uid-65534-cannot-run-the-binary'); return
+    for variant in ('sticky', 'unwritable'):
+        base = os.path.join(sb.dir, 'rul-' + variant)
+        src, dst, out = (os.path.join(base, x) for x in ('src', 'dst', 'outside'))
+        l3.make_tree(out, [('', 'D'), ('notes.txt', 'F', b'notes', 10**18)])
+        l3.make_tree(src, [('', 'D'), ('shared', 'D'), ('shared/lnk', 'F', b'now a file', 2 * 10**18)])
+        l3.make_tree(dst, [('', 'D'), ('shared', 'D'), ('shared/lnk', 'L', '../../outside/notes.txt')])
+        subprocess.run(['chown', '-R', '65534:65534', src, out, dst]); subprocess.run(['chmod', '-R', 'a+rX', base]); os.chmod(sb.dir, 0o755)
+        os.chmod(os.path.join(out, 'notes.txt'), 0o444)
+        sh = os.path.join(dst, 'shared')
+        os.chown(sh, 0, 0); os.lchown(os.path.join(sh, 'lnk'), 0, 0)
+        os.chmod(sh, 0o1777 if variant == 'sticky' else 0o755)
+        st0 = os.stat(os.path.join(out, 'notes.txt'))
+        r = l4.run_cli([src + '/', dst + '/'], env=sb.env(), timeout=60, preexec=as_nobody)
+        st1 = os.stat(os.path.join(out, 'notes.txt'))
+        same = (st0.st_mode, st0.st_mtime_ns, st0.st_size) == (st1.st_mode, st1.st_mtime_ns, st1.st_size) and open(os.path.join(out, 'notes.txt'), 'rb').read() == b'notes'
+        run.case(('trial', 'refused-unlink-of-link', variant), True, sample=dict(layer='L4', trial='refused-unlink-of-link', variant=variant, rc=r['rc'], target_unchanged=same))
+        run.count('trial:refused-unlink-of-link')
+        if not same:
+            viol(run, 'nothing is read, changed or deleted through a symlink: deleting or replacing a destination symlink touches only the link - also when the deletion is refused',
+                 variant=variant, rc=r['rc'], mode_before=oct(st0.st_mode), mode_after=oct(st1.st_mode), stderr=r['err'][-300:]); return
+        if r['rc'] == 0:
+            viol(run, 'a refused deletion ends the run non-zero', variant=variant, rc=0); return
+        shutil.rmtree(base, ignore_errors=True)
+
+
+@trial('C17', 'C09', 'C18')
+def descriptor_limit(run, sb):
+    """the process may open only k file descriptors (RLIMIT_NOFILE = 3..16): every listing ends - with its entries or with an error -
+    and the run hands control back within bounded time"""
+    base = os.path.join(sb.dir, 'fdl')
+    src, dst = os.path.join(base, 'src'), os.path.join(base, 'dst')
+    l3.make_tree(src, [('', 'D')] + [(f'd{i}', 'D') for i in range(6)] + [(f'd{i}/f{j}', 'F', b'x', 10**18) for i in range(6) for j in range(3)] + [('d0/deep', 'D'), ('d0/deep/g', 'F', b'g', 10**18)])
+    # (with stdin closed the loader has a free descriptor to map the libraries with; the Rust runtime then re-opens fd 0 on /dev/null, so at the
+    # lowest limits every descriptor is in use for good by the time the walk starts: a persistent EMFILE, not one the walk causes itself)
+    for k, close0 in ((3, True), (4, True), (5, True), (3, False), (4, False), (5, False), (6, False), (7, False), (9, False), (12, False), (16, False)):
+        shutil.rmtree(dst, ignore_errors=True)
+        def limit(k=k, close0=close0):
+            if close0:
+                os.close(0)
+            resource.setrlimit(resource.RLIMIT_NOFILE, (k, k))
+        r = l4.run_cli([src + '/', dst + '/', '--no-progress'], env=sb.env(), timeout=25, preexec=limit, stdin=None if close0 else subprocess.DEVNULL)
+        run.case(('trial', 'descriptor-limit', k, close0), True, sample=dict(layer='L4', trial='descriptor-limit', rlimit_nofile=k, stdin_closed=close0, rc=r['rc'], timed_out=r['timeout']) if k in (3, 9) else None)
+        run.count(f'trial:descriptor-limit:rc={r["rc"]}')
+        if r['timeout']:
+            viol(run, 'the walk always finishes (a read error on a directory - here: too many open files - surfaces as an error) and the run hands control back within bounded time', rlimit_nofile=k, stdin_closed=close0, timed_out=True, stderr=r['err'][-300:]); return
+        if r['rc'] == 0 and len(l3.snapshot(dst)) != len(l3.snapshot(src)):
+            viol(run, 'exit 0 means every included entry was listed and copied', rlimit_nofile=k, rc=0); return
+    shutil.rmtree(base, ignore_errors=True)
+
+
+@trial('C05', 'C07', 'C01')
+def unreadable_source_file(run, sb):
+    """as uid 65534: a source file that can be listed but not opened (owner root, mode 0600).  The dry run announces it; the real run must
+    either copy it or fail - never end 0 without it (and then the dry run's counts would not be the real run's)"""
+    if not l4.nobody_can_run():
+        run.count('skipped:uid-65534-cannot-run-the-binary'); return
+    base = os.path.join(sb.dir, 'usf')
+    src, dst = os.path.join(base, 'src'), os.path.join(base, 'dst')
+    l3.make_tree(src, [('', 'D'), ('a.txt', 'F', b'aaaaa', 10**18), ('private.key', 'F', b'fifteen bytes!!', 10**18), ('z.txt', 'F', b'zzzzzz', 10**18)])
+    os.makedirs(dst)
+    subprocess.run(['chown', '-R', '65534:65534', base]); subprocess.run(['chmod', '-R', 'a+rX', base]); os.chmod(sb.dir, 0o755)
+    os.chown(os.path.join(src, 'private.key'), 0, 0); os.chmod(os.path.join(src, 'private.key'), 0o600)
+    rd = l4.run_cli([src + '/', dst + '/', '--dry-run'], env=sb.env(), timeout=60, preexec=as_nobody)
+    rr = l4.run_cli([src + '/', dst + '/'], env=sb.env(), timeout=60, preexec=as_nobody)
+    d = l3.snapshot(dst)
+    import re
+    would = re.search(r'Would copy (\d+) file', rd['out'] + rd['err']); did = re.search(r'Copied (\d+) file', rr['out'] + rr['err'])
+    run.case(('trial', 'unreadable-source-file'), True, sample=dict(layer='L4', trial='unreadable-source-file', dry_rc=rd['rc'], real_rc=rr['rc'], would_copy=would.group(1) if would else None, copied=did.group(1) if did else None))
+    run.count('trial:unreadable-source-file')
+    if rr['rc'] == 0 and b'private.key' not in d:
+        viol(run, 'exit 0 only if every planned copy was carried out; and the entries and counts a dry run announces are those the real run copies', dry_run_says=would.group(0) if would else None,
+             real_run_says=did.group(0) if did else None, real_rc=0, destination=sorted(p.decode() for p in d), stderr=rr['err'][-300:]); return
+    shutil.rmtree(base, ignore_errors=True)
